@@ -5,6 +5,7 @@ package main
 import (
 	"errors"
 	"fmt"
+	"sort"
 	"strconv"
 	"strings"
 
@@ -577,10 +578,13 @@ func mutableStringers(v interface{}, out *[]*strMut) {
 	}
 }
 
+var inPlaceTick int
+
 func evalOn(rule string, obj map[string]interface{}, poison []map[string]interface{}) Obs {
 	var muts []*strMut
 	mutableStringers(obj, &muts)
-	if len(poison) == 0 && len(muts) == 0 {
+	if len(poison) == 0 && len(muts) == 0 && (inPlaceTick+1)%7 != 3 {
+		inPlaceTick++
 		return evalFresh(rule, obj)
 	}
 	ev, err, esc := newEvaluator(rule)
@@ -593,6 +597,36 @@ func evalOn(rule string, obj map[string]interface{}, poison []map[string]interfa
 	}
 	for _, p := range poison {
 		observeProcess(ev, p)
+	}
+	inPlaceTick++
+	if inPlaceTick%7 == 3 && len(obj) > 0 && len(obj) < 40 {
+		// the caller's map once before with one of its values replaced IN PLACE (same map object, same keys), then put
+		// back: whatever an evaluator or the package remembers about "this object" must not outlive the change
+		keys := make([]string, 0, len(obj))
+		for k := range obj {
+			keys = append(keys, k)
+		}
+		sort.Strings(keys)
+		k := keys[inPlaceTick%len(keys)]
+		old := obj[k]
+		var repl interface{}
+		switch v := old.(type) {
+		case int:
+			repl = v + 1
+		case float64:
+			repl = v + 1
+		case string:
+			repl = v + "~"
+		case bool:
+			repl = !v
+		case nil:
+			repl = 1
+		default:
+			repl = nil
+		}
+		obj[k] = repl
+		observeProcess(ev, obj)
+		obj[k] = old
 	}
 	if len(muts) > 0 {
 		// the same object once before with OTHER texts in its mutable Stringers (same pointers): the evaluation under
